@@ -8,11 +8,11 @@
      is_walk s l                consecutive elements of l are edges
      before a b L               L = L1 ++ a :: L2 ++ b :: L3
      wfb s                      the executable domain predicate (Model.v), also evaluated by the driver
-     valid_ops s ops            every operation meets its precondition: AddNode n with n not the empty
-                                name, AddEdge a b with b a node and a->b not yet an edge, RemoveEdge a b
+     valid_ops s ops            every operation meets its precondition: AddNode n with n not [nobody]
+                                (true of every name: names are ranks >= 0), AddEdge a b with b a node and a->b not yet an edge, RemoveEdge a b
                                 of an existing edge; everything else unrestricted
      dirty D ops                nodes that lost an edge and were not re-indexed since
-     nobody                     the empty string, FindCycle's sentinel *)
+     nobody                     -1: FindCycle's "no parent" mark (the root flag of the Go code since fix F26), the rank of no name *)
 From Coq Require Import List ZArith Permutation Bool.
 From Herc Require Import Toposort.Model Toposort.Paths Toposort.Refine Toposort.Reach Toposort.Cycle Toposort.Main.
 From Herc Require Toposort.Kahn Toposort.KahnProofs.
